@@ -825,7 +825,15 @@ impl Lexer<'_> {
             }
             c if is_valid_unicode_sas_name_start(c) => {
                 self.lex_identifier();
-                self.set_pending_stat(true);
+
+                // A datalines block is lexed in one go including its closing
+                // semicolon, which ends the statement
+                let stat_ended = self
+                    .buffer
+                    .last_token_info()
+                    .map_or(false, |t| t.token_type == TokenType::SEMI);
+
+                self.set_pending_stat(!stat_ended);
             }
             _ => {
                 // Something else must be a symbol or some unknown character
